@@ -51,6 +51,16 @@ class Frame:
         self.func = func
 
 
+def _flat_items(c):
+    out = []
+    for it in (c.entries if hasattr(c, "entries") else c.items):
+        if isinstance(it, (list, tuple)):
+            out.extend(it)
+        else:
+            out.append(it)
+    return out
+
+
 class Interp:
     def __init__(self, contracts=None, inline=None, env_overrides=None, options=None):
         self.contracts = contracts or {}      # qualname -> callable(interp, st, args, kwargs) -> value
@@ -106,6 +116,9 @@ class Interp:
                 # module-level mutable containers (caches, registries) are process state: one object
                 # per path, initially as written in the source
                 per_state[key] = val
+                # remembered for the frame obligation: a function that leaves something in a module-level
+                # container (memo cache, registry) must say so in its contract
+                st.ghost.setdefault("module_snapshot", {})[key] = (val, _flat_items(val))
                 return val
             if len(st.pc) == n_pc:
                 # cache only values whose evaluation assumed nothing (axioms of sqrt/log/exp terms
